@@ -381,7 +381,15 @@ func VerifH04cRetry() {
 	// the first backend fails before reading the body, after one byte, or after all of it
 	be1 := &zzBackend{fail: []bool{true}, failRead: verifrt.Choose("first-backend-reads", 3) - 1}
 	be2 := &zzBackend{}
-	for i, be := range []*zzBackend{be1, be2} {
+	backends := []*zzBackend{be1, be2}
+	single := verifrt.Bool("single-backend")
+	if single {
+		// one backend that fails once and then answers: retries go to the same host
+		backends = []*zzBackend{be1}
+		be2 = be1
+		u.FailTimeout = 0 // (no failure counting, the default: the backend stays in rotation)
+	}
+	for i, be := range backends {
 		h, err := u.NewHost("http://backend" + []string{"1", "2"}[i] + base + targetQuery)
 		if err != nil {
 			verifrt.Fail("newhost")
@@ -397,9 +405,18 @@ func VerifH04cRetry() {
 	r := &http.Request{Method: "POST", URL: &url.URL{Path: "/x", RawQuery: query}, Header: http.Header{"X-Add": []string{"client"}}, Host: "site",
 		RemoteAddr: "1.2.3.4:5", ContentLength: int64(len(body)), Body: io.NopCloser(bytes.NewReader(body)), Proto: "HTTP/1.1", ProtoMajor: 1, ProtoMinor: 1}
 	w := &zzClientW{}
+	if single && len(body) > 0 {
+		// with one backend the body is not buffered (by design, to keep streaming), yet the request is
+		// retried on the same backend: the input class of the recorded known finding
+		verifrt.Tag("single-backend-retry-of-a-request-with-a-body")
+	}
 	status, err := p.ServeHTTP(w, r)
 	verifrt.Assert(status == 0 && err == nil && w.status == 200, "answered-by-the-healthy-backend")
-	verifrt.Assert(be1.calls == 1 && be2.calls == 1, "one-attempt-per-backend")
+	if single {
+		verifrt.Assert(be1.calls == 2, "second-attempt-on-the-same-backend")
+	} else {
+		verifrt.Assert(be1.calls == 1 && be2.calls == 1, "one-attempt-per-backend")
+	}
 	out := be2.seen
 	if out == nil {
 		return
@@ -425,7 +442,7 @@ func VerifH04cRetry() {
 	}
 	verifrt.Assert(out.URL.RawQuery == wantQ, "retry-query-applied-once")
 	verifrt.Assert(bytes.Equal(be2.seenBody, body), "retry-receives-the-complete-body")
-	verifrt.Assert(out.URL.Host == "backend2", "retry-goes-to-the-second-backend")
+	verifrt.Assert(out.URL.Host == "backend2" || single && out.URL.Host == "backend1", "retry-goes-to-the-second-backend")
 	if rules {
 		a := out.Header["X-Add"]
 		verifrt.Assert(len(a) == 2 && a[0] == "client" && a[1] == "av", "retry-header-rules-applied-once")
@@ -460,6 +477,11 @@ func VerifH04dConfigured() {
 	if downRules&2 != 0 {
 		text += "\theader_downstream X-D ^a z\n"
 	}
+	// a configured change may name a field that is hop-by-hop when it comes from the backend
+	hopRule := verifrt.Bool("downstream-rule-on-hop-by-hop-field")
+	if hopRule {
+		text += "\theader_downstream Keep-Alive timeout=5\n"
+	}
 	text += "}\n"
 	ups, err := NewStaticUpstreams(casketfile.NewDispenser("Casketfile", strings.NewReader(text)), "")
 	if err != nil || len(ups) != 1 {
@@ -468,7 +490,7 @@ func VerifH04dConfigured() {
 	}
 	u := ups[0].(*staticUpstream)
 	be := &zzBackend{resp: func(req *http.Request) *http.Response {
-		return &http.Response{StatusCode: 200, Header: http.Header{"X-D": []string{"abc"}}, Body: io.NopCloser(bytes.NewReader(nil))}
+		return &http.Response{StatusCode: 200, Header: http.Header{"X-D": []string{"abc"}, "Keep-Alive": []string{"timeout=99"}}, Body: io.NopCloser(bytes.NewReader(nil))}
 	}}
 	for _, h := range u.Hosts {
 		h.ReverseProxy.Transport = be
@@ -503,5 +525,10 @@ func VerifH04dConfigured() {
 	}
 	verifrt.Assert(w.Header().Get("X-D") == wantD, "downstream-replace-rule-applied-iff-configured")
 	verifrt.Assert((w.Header().Get("X-DSet") == "dv") == (downRules&1 != 0), "downstream-set-rule-applied-iff-configured")
+	if hopRule {
+		verifrt.Assert(w.Header().Get("Keep-Alive") == "timeout=5", "configured-downstream-change-reaches-the-client")
+	} else {
+		verifrt.Assert(w.Header().Get("Keep-Alive") == "", "backends-hop-by-hop-field-removed")
+	}
 	verifrt.Observe("configured", out.URL.Path, out.Header.Get("X-R"), w.Header().Get("X-D"))
 }
